@@ -4,6 +4,7 @@ package rtr
 // control.ConfigDataplane (exactly what router/cmd/router/main.go does), with the recording connection opener.
 
 import (
+	"context"
 	"crypto/hmac"
 	"crypto/sha256"
 	"encoding/base64"
@@ -282,4 +283,29 @@ func OneHop(srcIA, dstIA uint64, src, dst Host, ts uint32) Pkt {
 	return Pkt{TrafficClass: 0, FlowID: 0x12345, PathType: PathOneHop, SrcIA: srcIA, DstIA: dstIA, Src: src, Dst: dst,
 		Segs: []Seg{{ConsDir: true, SegID: 0x4242, TS: ts, Hops: []Hop{{In: 0, Eg: 77, Exp: 63,
 			Mac: [6]byte{9, 8, 7, 6, 5, 4}}}}}}
+}
+
+// StartLinks does the underlay half of dataPlane.Run: packet pool, processor queues and provider.Start (which runs the
+// real BFD sessions of the links, the internal link's processor and the receive/send loops of every connection). No
+// packet processors are started: the caller pushes packets through Process. Undo with StopLinks (real Shutdown).
+func (r *Router) StartLinks(ctx context.Context) {
+	r.VerifInitPool(8)
+	qs, _ := r.VerifInitQueues(8)
+	r.VerifUnderlay("udpip").Start(ctx, r.VerifPool(), qs)
+}
+
+func (r *Router) StopLinks() { r.Shutdown() }
+
+// BFDControl serialises a BFD control packet (RFC 5880 section 4.1) without authentication section.
+func BFDControl(state uint8, detectMult uint8, my, your uint32, desiredMinTxUs, requiredMinRxUs uint32) []byte {
+	b := make([]byte, 24)
+	b[0] = 1 << 5 // version 1, diag 0
+	b[1] = state << 6
+	b[2] = detectMult
+	b[3] = 24
+	binary.BigEndian.PutUint32(b[4:], my)
+	binary.BigEndian.PutUint32(b[8:], your)
+	binary.BigEndian.PutUint32(b[12:], desiredMinTxUs)
+	binary.BigEndian.PutUint32(b[16:], requiredMinRxUs)
+	return b
 }
